@@ -132,7 +132,7 @@ Definition obs_eqb (a b : obs) : bool :=
 
 (** ** the model side *)
 
-Definition m_load := @load string string string String.eqb String.eqb.
+Definition m_load := @load string string string String.eqb String.eqb "" "".
 
 (** Current(): the empty request renders as the empty string, so does what an
     empty Target holds besides addresses and request *)
@@ -158,8 +158,11 @@ Definition mstep (s : option cfg) (o : op) : option cfg * obs :=
 Definition nonempty {A} (l : list A) : bool := match l with [] => false | _ => true end.
 
 (** a configuration is valid: every target has a name, a message, an address
-    and names a request that the request map has *)
-Definition valid_b (c : cfg) : bool :=
+    and names a request that the request map has.  Whether a request entry
+    whose value is a nil message pointer counts as "has" is not specified (it
+    cannot be written in a configuration file); [valid_b false] lets it
+    through, [valid_b true] does not. *)
+Definition valid_b (strict : bool) (c : cfg) : bool :=
   forallb (fun kt =>
              negb (String.eqb (fst kt) "")
              && match snd kt with
@@ -167,15 +170,28 @@ Definition valid_b (c : cfg) : bool :=
                 | Some t =>
                     nonempty (t_addresses t)
                     && negb (String.eqb (t_request t) "")
-                    && existsb (String.eqb (t_request t)) (keys (c_request c))
+                    && match assoc (t_request t) (c_request c) with
+                       | None => false
+                       | Some None => negb strict
+                       | Some (Some _) => true
+                       end
                 end) (c_target c).
 
-Definition admissible (st : option cfg) (arg : option cfg) : bool :=
-  match arg with
-  | None => false
-  | Some c =>
-      valid_b c && match st with None => true | Some cur => Z.ltb (c_revision cur) (c_revision c) end
-  end.
+Definition newer (st : option cfg) (c : cfg) : bool :=
+  match st with None => true | Some cur => Z.ltb (c_revision cur) (c_revision c) end.
+
+(** must be applied / may be applied *)
+Definition must_apply (st : option cfg) (arg : option cfg) : bool :=
+  match arg with None => false | Some c => valid_b true c && newer st c end.
+Definition may_apply (st : option cfg) (arg : option cfg) : bool :=
+  match arg with None => false | Some c => valid_b false c && newer st c end.
+
+(** the specification's decision: forced where the property decides, the
+    implementation's own answer in the unspecified corner *)
+Definition admissible (st : option cfg) (arg : option cfg) (err : bool) : bool :=
+  if must_apply st arg then true
+  else if may_apply st arg then negb err
+  else false.
 
 Definition eff_of (st : option cfg) : ceff := effective st.
 
@@ -213,7 +229,7 @@ Definition kstep (st : option cfg) (rep : option ceff) (o : op) (r : obs)
   : list N * option cfg * option ceff :=
   match o, r with
   | OLoad arg, RLoad err cs cur =>
-      let adm := admissible st arg in
+      let adm := admissible st arg err in
       let st' := if adm then arg else st in
       let rep' := replay_step rep cs in
       (tagif (Bool.eqb err (negb adm)) 2
@@ -251,11 +267,15 @@ Fixpoint check_from (i : nat) (ms : option cfg) (st : option cfg) (rep : option 
       ++ check_from (S i) ms' st' rep' mut' c'
   end.
 
-Definition m_new := @new_config_with_base string string string.
+Definition m_new := @new_config_with_base string string string "" "".
 
 Definition check_case (k : case) : list (nat * N) :=
   (* step 0: construction *)
-  let spec_ok := match k_base k with None => true | Some c => valid_b c end in
+  let spec_ok := match k_base k with
+                 | None => true
+                 | Some c => if valid_b true c then true
+                             else if valid_b false c then negb (k_base_err k) else false
+                 end in
   let spec_st := if spec_ok then k_base k else None in
   let ktags :=
     tagif (Bool.eqb (k_base_err k) (negb spec_ok)) 2
